@@ -96,3 +96,27 @@ func FaultAddr(r any) (uintptr, bool) {
 	}
 	return 0, false
 }
+
+// GuardedCopy returns a copy of data that ends exactly at the start of an
+// inaccessible page, the way a file mapped with mmap ends at the end of its
+// mapping when its size is a multiple of the page size: reading even one byte
+// past the slice faults (and, with debug.SetPanicOnFault, panics) instead of
+// silently returning whatever follows in memory. free releases the region.
+func GuardedCopy(data []byte) (buf []byte, free func()) {
+	const page = 4096
+	n := (len(data) + page - 1) / page * page
+	if n == 0 {
+		n = page
+	}
+	region, err := syscall.Mmap(-1, 0, n+page, syscall.PROT_READ|syscall.PROT_WRITE, syscall.MAP_ANON|syscall.MAP_PRIVATE)
+	if err != nil {
+		return append([]byte(nil), data...), func() {}
+	}
+	if err := syscall.Mprotect(region[n:], syscall.PROT_NONE); err != nil {
+		syscall.Munmap(region)
+		return append([]byte(nil), data...), func() {}
+	}
+	buf = region[n-len(data) : n : n]
+	copy(buf, data)
+	return buf, func() { syscall.Munmap(region) }
+}
